@@ -1,11 +1,12 @@
 (* C08 — reference lists keep the textual order of the references. *)
 From Coq Require Import Sorting.Sorted.
-From TxV Require Import Core.Base Gen.SrcResolve Model.Resolve Proofs.ResolveProofs.
+From TxV Require Import Core.Base Gen.SrcResolve Model.Resolve Proofs.ResolveOrderProofs Proofs.ResolveRetryProofs.
 
 (* [load] is the resolver model instantiated with the facts that tools/translate/resolve_tr.py
-   reads from textx/model.py on every run (Gen/SrcResolve.v): how a resolved list reference is
-   stored, how Postponed references are re-queued, what counts as progress, the loop and error
-   conditions.  The theorems are therefore re-proved against the current source. *)
+   reads from textx/model.py on every run (Gen/SrcResolve.v).  C08_order is proved for ANY value of
+   the facts it does not need: it depends on list_store_by_position (insertion by text position)
+   and, for "every reference is resolved", on error_condition; the re-queue order only feeds
+   C08_retry_order. *)
 
 (* For EVERY scope provider — any function of the reference and of the whole load history,
    hence every postponement schedule — and every distribution of the references over
@@ -22,13 +23,25 @@ Theorem C08_order : forall (ans : provider) models st,
 Proof. exact order_preserved. Qed.
 Print Assumptions C08_order.
 
+(* The same list property at every end of a load, successful or not: each list attribute holds the
+   targets of the references resolved so far, in textual order.  Needs only the fact
+   list_store_by_position (Proofs/ResolveOrderProofs.v). *)
+Theorem C08_order_always : forall (ans : provider) models st,
+  NoDup (map xid (concat models)) ->
+  (forall s, StronglySorted lt (map xpos (filter (inslot s) (concat models)))) ->
+  (load ans models = Ok st \/ exists lf, load ans models = Unresolvable lf st) ->
+  forall s, lists st s = map (entry st) (filter (fun x => (inslot s x && resolved st x)%bool) (concat models)).
+Proof. exact order_always. Qed.
+Print Assumptions C08_order_always.
+
 (* The retry queue keeps the textual order: after one pass over a model's pending references
-   (any provider, any state) the new pending list is exactly the list of delayed references,
-   it is the pending list with the resolved references removed - nothing reordered - and every
-   resolution was counted as progress. *)
+   (any provider, any state) the new pending list is exactly the list of delayed references and it
+   is the pending list with the resolved references removed - nothing reordered.  Needs only the
+   facts postponed_requeued_at_front = postponed_reported_at_front = false
+   (Proofs/ResolveRetryProofs.v); C08_order does not depend on them. *)
 Theorem C08_retry_order : forall (ans : provider) pend st st' np d c,
-  step ans pend st = Some (st', np, d, c) -> np = d /\ sub np pend /\ length np + c = length pend.
-Proof. exact retry_in_order. Qed.
+  step ans pend st = Some (st', np, d, c) -> np = d /\ sub np pend.
+Proof. exact retry_order. Qed.
 Print Assumptions C08_retry_order.
 
 (* non-vacuity: list a,b,c with a postponed twice and c once, kept alive by two scalars *)
